@@ -1,9 +1,87 @@
 (* Properties/C10.v — Iterator steps return exactly the samples inside the reported view.
-   (statements only; under construction) *)
-From Coq Require Import ZArith List.
-From Synnax Require Import Generated.Consts_C10 Cesium.Store Cesium.UnaryIter Cesium.Read.
+   Only statements, each closed by [exact] (short glue allowed), each followed by
+   Print Assumptions. *)
+From Coq Require Import ZArith List Bool Lia.
+From Synnax Require Import Generated.Consts_C10 Cesium.Store Cesium.IndexSearch Cesium.Distance Cesium.Stamp
+     Cesium.UnaryIter Cesium.UnaryWrite Cesium.Read Monitors.Mon_C10
+     Cesium.IndexSearchProofs Cesium.UnaryIterViews Cesium.UnaryIterViewsRun Cesium.LegacyWitness.
+Import ListNotations.
 Local Open Scope Z_scope.
 
+(* The sentinel span and the default chunk size of the model are the ones of the Go source. *)
 Theorem C10_consts_agree : AUTO = go_auto_span /\ DEFAULT_CHUNK = go_default_chunk.
 Proof. split; reflexivity. Qed.
 Print Assumptions C10_consts_agree.
+
+(* search_spec — index.Domain.search on a strictly increasing stamp list: Exactly i iff the
+   stamp is the i-th sample, otherwise Between (k-1) k where k samples lie before it. *)
+Theorem C10_search_spec : forall l ts, inc l ->
+  isearch ts l = Ok (if mem ts l then AP (cnt_lt ts l) (cnt_lt ts l)
+                     else AP (cnt_lt ts l - 1) (cnt_lt ts l)) /\
+  (mem ts l = true -> znth l (cnt_lt ts l) = Some ts).
+Proof.
+  intros l ts S. split.
+  - rewrite (isearch_spec l ts S). unfold search_result. destruct (mem ts l); reflexivity.
+  - apply inc_mem_at. exact S.
+Qed.
+Print Assumptions C10_search_spec.
+
+(* Views: for every stored layout (P index domains, D data domains, any data type kind), chunk
+   size, valid bounds and every command sequence with non-negative spans, each step that does
+   not report an error has its view inside the bounds, and consecutive steps in one direction
+   have adjacent views: view'.start = view.end going forward, view'.end = view.start going
+   backward (clauses (2) and (3) of the monitor, [views_trace]). *)
+Theorem C10_views_adjacent_and_bounded : forall P D var chunk b cmds,
+  valid_bounds b -> Forall cmd_ok cmds ->
+  views_trace b None (combine cmds (u_run P D var chunk false (u_open b) cmds)) = true.
+Proof. exact views_adjacent_and_bounded. Qed.
+Print Assumptions C10_views_adjacent_and_bounded.
+
+(* A step never clears an accumulated error and never changes the bounds; its view is the
+   requested span range clipped to the bounds. *)
+Theorem C10_step_view : forall P D var i span,
+  u_view (step_fwd P D var i span) = bound_by (span_range (t_e (u_view i)) span) (u_b i) /\
+  u_view (step_bwd P D var i span) = bound_by (span_range (t_s (u_view i)) (-1 * span)) (u_b i) /\
+  u_b (step_fwd P D var i span) = u_b i /\ u_b (step_bwd P D var i span) = u_b i /\
+  (errored i = true -> errored (step_fwd P D var i span) = true /\ errored (step_bwd P D var i span) = true).
+Proof.
+  intros. destruct (step_fwd_view P D var i span) as (A & B & C).
+  destruct (step_bwd_view P D var i span) as (A' & B' & C'). auto 10.
+Qed.
+Print Assumptions C10_step_view.
+
+(* The stepping code of the pinned upstream tree does not satisfy the statement (finding F1,
+   repaired in /repo by e87d2c5; the model's [legacy = false] is the repaired code): automatic
+   steps from a view that does not start on a sample return a sample outside the view and
+   return it again; a forward walk skips the rest of a domain after a view without samples; a
+   step back after the domain iterator was exhausted loses samples.  The same sequences satisfy
+   the monitor with the repaired code. *)
+Theorem C10_legacy_steps_refuted :
+  w_ok true 2 w_auto = false /\ w_ok true 2 w_skip = false /\ w_ok true 2 w_back = false /\
+  w_ok false 2 w_auto = true /\ w_ok false 2 w_skip = true /\ w_ok false 2 w_back = true.
+Proof.
+  pose proof legacy_auto_refuted. pose proof legacy_skip_refuted. pose proof legacy_back_refuted.
+  pose proof fixed_witnesses_ok. tauto.
+Qed.
+Print Assumptions C10_legacy_steps_refuted.
+
+(* Known finding F24 (not repaired): backwardStamp reads one stamp past the previous domain
+   when the wanted sample is the first of the current one, so Prev(AutoSpan) reports EOF. *)
+Theorem C10_auto_prev_eof_refuted : stamp w_idx3 110 (-1) false = Err EEOF.
+Proof. exact backward_stamp_eof. Qed.
+Print Assumptions C10_auto_prev_eof_refuted.
+
+(* Non-vacuity: a two-domain layout whose writer started before its first sample, valid
+   bounds, a sequence mixing directions, automatic and explicit spans across the gap; the
+   hypotheses of the theorems hold and the full monitor accepts the model's observations. *)
+Definition ex_cmds : list cmd :=
+  [SeekFirst; NextAuto; Next 4; Next 20; Prev 9; PrevAuto; SeekLE 31; Next 100; SetBounds (TR 13 33); SeekLast; Prev 5; Prev 100].
+Example C10_nonvacuous :
+  valid_bounds w_bounds /\ Forall cmd_ok ex_cmds /\
+  w_ok false 2 ex_cmds = true /\
+  length (filter (fun o => o_valid o) (w_obs false 2 ex_cmds)) = 7%nat.
+Proof.
+  split; [unfold valid_bounds, w_bounds, MINI64, MAXTS; simpl; lia|].
+  split; [repeat constructor; unfold valid_bounds, MINI64, MAXTS; simpl; lia|].
+  vm_compute. auto.
+Qed.
